@@ -1,7 +1,7 @@
-(* C14 phase 2: agreement of the two reader models on modules without blackbox instances (part A7) *)
+(* C14 phase 2: agreement of the two reader models on the documented subset (part A7) *)
 From stdpp Require Import strings gmap sets pretty.
 From CG Require Import Model.FastVerilog Proofs.FastVerilogProofs Gen.Gen_fastv.
-From CG Require Import Proofs.FvA0 Proofs.FvA1 Proofs.FvA2 Proofs.FvA3 Proofs.FvA4 Proofs.FvA5 Proofs.FvA6.
+From CG Require Import Proofs.FvA0 Proofs.FvA1 Proofs.FvA2 Proofs.FvP1 Proofs.FvE1 Proofs.FvE2 Proofs.FvE3 Proofs.FvE4 Proofs.FvA3 Proofs.FvE5 Proofs.FvE6 Proofs.FvE7 Proofs.FvA4 Proofs.FvA5 Proofs.FvA6.
 Open Scope string_scope.
 
 Lemma set_output_lookup outs : ∀ g, (∀ o, o ∈ outs → o ∈ dom g) →
@@ -21,45 +21,39 @@ Proof.
 Qed.
 
 Section stpfold.
-  Variables (t0 t1 : string).
-  Notation stp := (stp t0 t1). Notation it_driver := (it_driver t0 t1). Notation gate_view := (gate_view t0 t1).
-  Definition it_uses (it : item) : list string := match gate_view it with Some (_, (_, fis)) => fis | None => [] end.
+  Variables (t0 t1 : string) (bbs : list bbdef).
+  Notation stp := (stp t0 t1 bbs). Notation it_driver := (it_driver t0 t1 bbs). Notation views := (views t0 t1 bbs).
+  Notation it_uses := (uses t0 t1 bbs).
 
   Lemma stp_G_None' s it m : sG s !! m = None → m ∉ it_driver it → sG (stp s it) !! m = None.
-  Proof.
-    intros HG Hm. unfold FvA3.stp, FvA4.it_driver in *. destruct it; try done; destruct (FvA3.gate_view t0 t1 _) as [[o [t' fis]]|]; try done;
-      cbn [sG]; rewrite lookup_insert_ne; [done|set_solver|done|set_solver].
-  Qed.
+  Proof. intros HG Hm. unfold FvA3.stp, FvA4.it_driver in *. destruct it; try done; cbn [sG]; by rewrite foldl_ins_other. Qed.
   Lemma stp_fold_I items : ∀ s, sI (foldl stp s items) = sI s ∪ list_to_set (items ≫= it_inputs).
   Proof.
     induction items as [|it items IH]; intros s; cbn [foldl]; [set_solver|]. rewrite IH, bind_cons, list_to_set_app_L.
     assert (sI (stp s it) = sI s ∪ list_to_set (it_inputs it)) as ->; [|set_solver].
-    unfold FvA3.stp, it_inputs. destruct it; try (destruct (FvA3.gate_view t0 t1 _) as [[o [t' fis]]|]; cbn [sI]; set_solver). done.
+    unfold FvA3.stp, it_inputs. destruct it; cbn [sI]; set_solver.
   Qed.
   Lemma stp_fold_U items : ∀ s, sU (foldl stp s items) = sU s ∪ list_to_set (items ≫= it_uses).
   Proof.
     induction items as [|it items IH]; intros s; cbn [foldl]; [set_solver|]. rewrite IH, bind_cons, list_to_set_app_L.
     assert (sU (stp s it) = sU s ∪ list_to_set (it_uses it)) as ->; [|set_solver].
-    unfold FvA3.stp, it_uses. destruct it; try (destruct (FvA3.gate_view t0 t1 _) as [[o [t' fis]]|]; cbn [sU]; set_solver). cbn [FvA3.gate_view sU]. set_solver.
+    unfold FvA3.stp. destruct it; cbn [sU]; try done. cbn [FvA3.uses]. set_solver.
   Qed.
   Lemma stp_fold_G items : ∀ s o v, NoDup (items ≫= it_driver) → (∀ d, d ∈ items ≫= it_driver → sG s !! d = None) →
-    sG (foldl stp s items) !! o = Some v ↔ sG s !! o = Some v ∨ ∃ it, it ∈ items ∧ gate_view it = Some (o, v).
+    sG (foldl stp s items) !! o = Some v ↔ sG s !! o = Some v ∨ ∃ it, it ∈ items ∧ (o, v) ∈ views it.
   Proof.
     induction items as [|it items IH]; intros s o v Hnd Hfresh; cbn [foldl].
     - split; [auto|]. intros [?|(it & Hit & _)]; [done|]. by apply elem_of_nil in Hit.
     - rewrite bind_cons in Hnd. apply NoDup_app in Hnd as (Hnd1 & Hnd12 & Hnd2). rewrite IH; [|done|].
-      + assert (Hs : sG (stp s it) !! o = Some v ↔ sG s !! o = Some v ∨ gate_view it = Some (o, v)).
-        { unfold FvA3.stp. destruct it as [ns|ns|ns|t inst ops|l r|bb inst conns]; try (cbn [FvA3.gate_view]; split; [auto|]; intros [?|?]; done).
-          - destruct (FvA3.gate_view t0 t1 (IGate t inst ops)) as [[o' [t' fis]]|] eqn:E; [|split; [auto|]; intros [?|?]; done].
-            cbn [sG]. rewrite lookup_insert_Some. split.
-            + intros [[-> <-]|[_ ?]]; auto.
-            + intros [H|[= -> ->]]; [|auto]. right. split; [|done]. intros ->.
-              rewrite Hfresh in H; [done|]. rewrite bind_cons. apply elem_of_app. left. unfold FvA4.it_driver. rewrite E. by left.
-          - destruct (FvA3.gate_view t0 t1 (IAssign l r)) as [[o' [t' fis]]|] eqn:E; [|split; [auto|]; intros [?|?]; done].
-            cbn [sG]. rewrite lookup_insert_Some. split.
-            + intros [[-> <-]|[_ ?]]; auto.
-            + intros [H|[= -> ->]]; [|auto]. right. split; [|done]. intros ->.
-              rewrite Hfresh in H; [done|]. rewrite bind_cons. apply elem_of_app. left. unfold FvA4.it_driver. rewrite E. by left. }
+      + assert (Hs : sG (stp s it) !! o = Some v ↔ sG s !! o = Some v ∨ (o, v) ∈ views it).
+        { assert (Hgen : foldl (λ G e, <[e.1 := e.2]> G) (sG s) (views it) !! o = Some v ↔ sG s !! o = Some v ∨ (o, v) ∈ views it).
+          { destruct (decide (o ∈ fst <$> views it)) as [Hk|Hk].
+            - apply elem_of_list_fmap in Hk as ([k v'] & -> & Hkv). cbn [fst]. rewrite (foldl_ins_in (views it) (sG s) k v' Hnd1 Hkv). split.
+              + intros [= ->]. by right.
+              + intros [H|Hin]; [rewrite Hfresh in H; [done|]; rewrite bind_cons; apply elem_of_app; left; apply elem_of_list_fmap; by exists (k, v')|].
+                f_equal. by eapply nodup_fst_fun.
+            - rewrite foldl_ins_other by done. split; [auto|]. intros [?|Hin]; [done|]. exfalso. apply Hk. apply elem_of_list_fmap. by exists (o, v). }
+          unfold FvA3.stp. destruct it; cbn [sG]; exact Hgen. }
         rewrite Hs. split.
         * intros [[?|?]|(it' & ? & ?)]; [auto|right; exists it; split; [by left|done]|right; exists it'; split; [by right|done]].
         * intros [?|(it' & [->|?]%elem_of_cons & ?)]; [auto|auto|right; eauto].
